@@ -258,6 +258,70 @@ func (p *PS) checkReplacement(tx *wire.MsgTx, before, after *View) {
 	}
 }
 
+// checkMerkle compares the header's merkle root with an own computation over the block's transactions.
+func (p *PS) checkMerkle(blk *wire.MsgBlock, what string) {
+	leaves := make([][32]byte, len(blk.Transactions))
+	for i, t := range blk.Transactions {
+		leaves[i] = [32]byte(t.TxHash())
+	}
+	if [32]byte(blk.Header.MerkleRoot) != chaingen.MerkleRoot(leaves) {
+		p.Fail("template:merkle-root-after-update", "%s: the header's merkle root does not commit to the block's transactions", what)
+	}
+}
+
+// bumpOne replaces one pooled transaction that signals replaceability and has no pooled descendants by a copy
+// paying a higher fee (same inputs, one output less value). Reports whether a replacement was accepted.
+func (p *PS) bumpOne() bool {
+	v := p.View()
+	for _, tx := range topo(v.Descs) {
+		d := v.Descs[tx.TxHash()]
+		signals := false
+		for _, in := range tx.TxIn {
+			if in.Sequence <= 0xfffffffd {
+				signals = true
+			}
+		}
+		h := tx.TxHash()
+		hasChild := false
+		for op := range v.Snap.Outpoints {
+			if op.Hash == h {
+				hasChild = true
+			}
+		}
+		if !signals || hasChild || len(tx.TxOut) == 0 {
+			continue
+		}
+		// rebuild with the same inputs: coin data from the chain or the pool
+		var in []chaingen.Spendable
+		ok := true
+		for _, ti := range tx.TxIn {
+			if e, err := p.F.Chain.FetchUtxoEntry(ti.PreviousOutPoint); err == nil && e != nil && !e.IsSpent() {
+				in = append(in, chaingen.Spendable{Op: ti.PreviousOutPoint, Coin: refchain.Coin{Amount: e.Amount(), PkScript: e.PkScript(), Height: e.BlockHeight(), Coinbase: e.IsCoinBase()}})
+			} else if pd, okp := v.Descs[ti.PreviousOutPoint.Hash]; okp {
+				to := pd.Tx.MsgTx().TxOut[ti.PreviousOutPoint.Index]
+				in = append(in, chaingen.Spendable{Op: ti.PreviousOutPoint, Coin: refchain.Coin{Amount: to.Value, PkScript: to.PkScript}})
+			} else {
+				ok = false
+			}
+		}
+		if !ok {
+			continue
+		}
+		for _, c := range in {
+			if !p.G.CanSpend(c.Coin.PkScript) {
+				ok = false
+			}
+		}
+		if !ok {
+			continue
+		}
+		nt := p.Build(TxSpec{In: in, Fee: d.Fee + 20000 + int64(p.R.Intn(20000)), NOut: len(tx.TxOut), Signal: true})
+		o := p.Submit(nt, false, "process", v)
+		return o.Err == nil && len(o.Accepted) > 0
+	}
+	return false
+}
+
 // CheckAcceptance calls CheckMempoolAcceptance: it must never change the pool.
 func (p *PS) CheckAcceptance(tx *wire.MsgTx) error {
 	before := p.View()
@@ -297,6 +361,26 @@ func (p *PS) MineTemplate(expectSuccess bool) {
 		}
 		payTo = addrs[0]
 		p.K.Count("template.pay_address", 1)
+	}
+	// now and then a first template on this tip is generated, gets its extra nonce rolled and is thrown away, and a
+	// pooled transaction is replaced by a fee bump (same tip, same transaction count, different transaction) before the
+	// template that is actually mined is generated: whatever the generator remembers between calls must not leak
+	if p.R.Chance(1, 4) {
+		if t0, err0 := p.F.Gen.NewBlockTemplate(payTo); err0 == nil {
+			if err := p.F.Gen.UpdateExtraNonce(t0.Block, p.Tip.Height+1, p.R.Uint64()>>uint(p.R.Intn(60))); err != nil {
+				p.Fail("template:UpdateExtraNonce", "UpdateExtraNonce on a discarded template: %v", err)
+				return
+			}
+			p.checkMerkle(t0.Block, "discarded template after UpdateExtraNonce")
+			if p.bumpOne() {
+				p.K.Count("template.regenerated_after_fee_bump", 1)
+			}
+			p.K.Count("template.discarded_first", 1)
+			if p.Failed {
+				return
+			}
+			v = p.View()
+		}
 	}
 	tmpl, err := p.F.Gen.NewBlockTemplate(payTo)
 	p.K.Count("op.template", 1)
@@ -397,6 +481,9 @@ func (p *PS) MineTemplate(expectSuccess bool) {
 		cbOut += to.Value
 	}
 	subsidy := refchain.Subsidy(height, p.G.P.SubsidyReductionInterval)
+	if iv := p.G.P.SubsidyReductionInterval; iv > 0 && height%iv == 0 {
+		p.K.Count("template.first_block_of_halving_epoch", 1)
+	}
 	if cbOut != subsidy+totalFees {
 		p.Fail("template:coinbase-value", "coinbase pays %d, subsidy %d + fees %d", cbOut, subsidy, totalFees)
 	}
@@ -461,6 +548,7 @@ func (p *PS) MineTemplate(expectSuccess bool) {
 		if err := p.F.Gen.UpdateExtraNonce(blk, height, p.R.Uint64()>>uint(p.R.Intn(60))); err != nil {
 			p.Fail("template:UpdateExtraNonce", "UpdateExtraNonce: %v", err)
 		}
+		p.checkMerkle(blk, "template after UpdateExtraNonce")
 		p.K.Count("template.update_extranonce", 1)
 	}
 	chaingen.Solve(&blk.Header)
